@@ -10,6 +10,7 @@ import LbfgsbVerif.Model.Shell
 import LbfgsbVerif.Generated.BenchF
 import LbfgsbVerif.Model.Compact
 import LbfgsbVerif.Model.Cauchy
+import LbfgsbVerif.Model.Subspace
 import Std.Data.HashMap
 
 open Lbfgsb
@@ -299,6 +300,13 @@ def handleShell (c : Ctx) (toks : List String) : Option (Ctx × List String) :=
     let theta ← parseF theta; let w ← parseVs w; let minv ← parseVs minv
     let r := cauchy { x, g, lb, ub, theta, W := w, Minv := minv, useFactor := uf == "1", epsFsec := 1e-30 }
     some (c, [s!"cauchy {showV r.1} {showV r.2}"])
+  | ["subspace", x, g, lb, ub, theta, w, minv, uf, xc, cc] => do
+    let x ← parseV x; let g ← parseV g; let lb ← parseV lb; let ub ← parseV ub
+    let theta ← parseF theta; let w ← parseVs w; let minv ← parseVs minv
+    let xc ← parseV xc; let cc ← parseV cc
+    let r := subspaceMin { x, g, lb, ub, theta, W := w, Minv := minv, useFactor := uf == "1", epsFsec := 1e-30,
+                           xc := xc, c := cc }
+    some (c, [s!"subspace {showV r}"])
   | ["compact", xs, gs, v] => do
     let X ← parseVs xs; let G ← parseVs gs; let v ← parseV v
     let bc := compactBv X G v
